@@ -345,13 +345,15 @@ func zzInit() *storage.CacheDB {
 	return db
 }
 
-// zzRecord writes what a header at height r.h announcing validator set r.keys leaves behind: the header itself
-// (PutBlockHeader precedes UpdateConsensusPeer in SyncGenesisHeader and SyncBlockHeader, so every key height
-// has a stored header) and the set, through the real putConsensusPeers.
-func zzRecord(db *storage.CacheDB, r zzRec) {
-	kh := &otypes.Header{Height: r.h, Timestamp: zzsym.U32("keyts"), ConsensusPayload: zzPayload(0)}
-	if PutBlockHeader(zzNative(db, nil), zzChain, kh) != nil {
-		panic("zz: PutBlockHeader")
+// zzRecord writes a validator set with the real putConsensusPeers (what UpdateConsensusPeer does for a header
+// that announces a configuration); withHeader also stores a header at that height, as SyncGenesisHeader and
+// SyncBlockHeader do (PutBlockHeader precedes UpdateConsensusPeer).
+func zzRecord(db *storage.CacheDB, r zzRec, withHeader bool) {
+	if withHeader {
+		kh := &otypes.Header{Height: r.h, Timestamp: zzsym.U32("keyts"), ConsensusPayload: zzPayload(0)}
+		if PutBlockHeader(zzNative(db, nil), zzChain, kh) != nil {
+			panic("zz: PutBlockHeader")
+		}
 	}
 	peers := &ConsensusPeers{ChainID: zzChain, Height: r.h, PeerMap: make(map[string]*Peer)}
 	for _, k := range r.keys {
@@ -381,7 +383,7 @@ func zzSets(db *storage.CacheDB, K, nmax int) []zzRec {
 		for _, m := range model {
 			zzsym.Assume(m.h != r.h)
 		}
-		zzRecord(db, r)
+		zzRecord(db, r, false)
 		model = append(model, r)
 	}
 	return model
@@ -401,17 +403,23 @@ func ZZ_C31_OntHeaderQuorum() {
 	// a signature list shorter than the bookkeeper list: explored for K == 1 only (VerifyMultiSignature does
 	// not depend on the key-height list)
 	fewer := K == 1 && zzsym.Choose("fewer", 2) == 1
-	var stored []uint32
+	hd := zzMakeHeader(model, bmax, fewer, zzsym.Param("NCFG"))
+	// Every key height has a stored header in a reachable state (PutBlockHeader precedes UpdateConsensusPeer in
+	// SyncGenesisHeader and SyncBlockHeader), so a header at a key height is skipped: that rule is exercised by
+	// ZZ_C31_OntHistory, whose states contain the stored headers. Here the stored headers are left out (their
+	// hash-indexed records make the exploration intractable) and the submitted height differs from the key heights.
 	for _, r := range model {
-		stored = append(stored, r.h)
+		zzsym.Assume(hd.height != r.h)
 	}
-	zzStep(db, model, stored, zzMakeHeader(model, bmax, fewer, 5), true)
+	// FindKeyHeight on the resulting list (clause c) is the subject of ZZ_C31_OntKeyHeights, which covers every
+	// list of up to KMAX+1 key heights; here the resulting list and sets are compared with the expected ones.
+	zzStep(db, model, nil, hd, false)
 }
 
 func ZZ_C31_OntHeaderQuorum_witness() {
 	db := zzInit()
 	model := []zzRec{{h: zzsym.U32("keyheight"), keys: []int{0}}}
-	zzRecord(db, model[0])
+	zzRecord(db, model[0], false)
 	hd := zzMakeHeader(model, 1, false, 2)
 	err := zzSubmit(db, hd)
 	zzsym.Assert(err != nil, "witness: a header signed by the single recorded validator is accepted")
@@ -446,7 +454,7 @@ func ZZ_C31_OntHistory() {
 	for i := 0; i < n; i++ {
 		g.keys = append(g.keys, i)
 	}
-	zzRecord(db, g)
+	zzRecord(db, g, true)
 	model := []zzRec{g}
 	stored := []uint32{g.h}
 	T := zzsym.Param("T")
@@ -467,7 +475,7 @@ func ZZ_C31_OntHistory() {
 func ZZ_C31_OntHistory_witness() {
 	db := zzInit()
 	g := zzRec{h: 5, keys: []int{0}}
-	zzRecord(db, g)
+	zzRecord(db, g, true)
 	model := []zzRec{g}
 	stored := []uint32{g.h}
 	hd := zzMakeHeader(model, 1, false, 2)
